@@ -44,7 +44,7 @@ OPT6 = ('opt.timestep', 'opt.gravity', 'opt.impratio', 'opt.wind', 'opt.density'
 # frame, is a body "simple", sparsity of M): rounding the printed numbers to 6 digits may legitimately flip them
 STRUCTURE6 = ('nM', 'nB', 'nC', 'nD', 'body_simple', 'body_sameframe', 'geom_sameframe', 'site_sameframe', 'dof_simplenum',
               'dof_Madr', 'M_rownnz', 'M_rowadr', 'M_colind', 'mapM2M', 'D_rownnz', 'D_rowadr', 'D_diag', 'D_colind',
-              'mapM2D', 'mapD2M', 'B_rownnz', 'B_rowadr', 'B_colind', 'names_map')
+              'mapM2D', 'mapD2M', 'B_rownnz', 'B_rowadr', 'B_colind', 'names_map', 'mesh_extrema', 'mesh_graph')
 MESH_F32_TOL = 2e-5     # ~100 x float32 epsilon (1.2e-7), applies only to models with meshes
 RTOL6 = 2e-5       # 6 significant digits: relative rounding error <= 5e-6 per printed number; x4 for normalisations
 
@@ -295,12 +295,25 @@ class C32:
       """Explain remaining differences by the shape-based findings; returns list of (fp, why) or None."""
       if not ds:
         return []
-      if all(d.field == 'geom_dataid' for d in ds) and ma.ngeom == mb.ngeom:
+      fields = set(d.field for d in ds)
+      if fields <= {'geom_dataid', 'geom_surfacevel'} and ma.ngeom == mb.ngeom:
+        out = []
         t = np.asarray(ma.geom_type)
-        idx = np.flatnonzero(np.asarray(ma.geom_dataid) != np.asarray(mb.geom_dataid))
-        if all(int(t[i]) not in (E.mjGEOM_MESH, E.mjGEOM_SDF, E.mjGEOM_HFIELD) for i in idx):
-          return [('meshfit-geom-dataid', 'a primitive geom fitted to a mesh keeps geom_dataid=mesh id in the compiled '
-                   'model, but the saved XML drops the mesh reference (geom_dataid=-1 after reload)')]
+        did = np.asarray(ma.geom_dataid)
+        ok = True
+        if 'geom_dataid' in fields:
+          idx = np.flatnonzero(did != np.asarray(mb.geom_dataid))
+          ok = ok and all(int(t[i]) not in (E.mjGEOM_MESH, E.mjGEOM_SDF, E.mjGEOM_HFIELD) for i in idx)
+          out.append(('meshfit-geom-dataid', 'a primitive geom fitted to a mesh keeps geom_dataid=mesh id in the compiled '
+                      'model, but the saved XML drops the mesh reference (geom_dataid=-1 after reload)'))
+        if 'geom_surfacevel' in fields:
+          rows = np.flatnonzero(np.any(np.asarray(ma.geom_surfacevel) != np.asarray(mb.geom_surfacevel), axis=1))
+          ok = ok and all(int(did[i]) >= 0 and int(t[i]) != E.mjGEOM_HFIELD for i in rows)
+          out.append(('mesh-geom-surfacevel-not-restored', 'compilation re-expresses surfacevel of a geom that references a '
+                      'mesh in the mesh-corrected frame; the writer restores pos/quat but saves the transformed surfacevel, '
+                      'which is transformed again on reload'))
+        if ok:
+          return out
       if comp.fusestatic and all(d.kind == 'size' for d in ds):
         na, nb = name_orders(lib, ma), name_orders(lib, mb)
         lost = [k for k in ('geom', 'site', 'camera', 'light') if len(nb[k]) < len(na[k])]
